@@ -48,6 +48,28 @@ theorem C05_lifetime (ops : List Op) (i j : Nat) (h : Handle) (src : List Nat) (
       | some p => simp only; rw [List.getElem?_set_ne hij]; exact hl
   exact (C05_contents _ j h src hl').1
 
+/-- **C05_lifetime_all** — dropping any number of other copies, in any order and with repeats (all the sender's copies,
+every clone, the handles that travelled in the carrying channel), leaves a handle readable with its own bytes. -/
+theorem C05_lifetime_all (ops : List Op) (ds : List Nat) (j : Nat) (h : Handle) (src : List Nat) (hj : j ∉ ds)
+    (hl : (run ops).hs[j]? = some (some (h, src))) :
+    (run (ops ++ ds.map Op.drop)).hs[j]? = some (some (h, src)) ∧ deref (run (ops ++ ds.map Op.drop)).k h = .bytes src := by
+  induction ds generalizing ops with
+  | nil => simpa using ⟨hl, (C05_contents ops j h src hl).1⟩
+  | cons d ds ih =>
+    have hdj : d ≠ j := fun e => hj (e ▸ List.mem_cons_self ..)
+    have hl' : (run (ops ++ [.drop d])).hs[j]? = some (some (h, src)) := by
+      simp only [run, List.foldl_append, List.foldl_cons, List.foldl_nil]
+      show (step (run ops) (.drop d)).hs[j]? = _
+      simp only [step]
+      cases hg : (run ops).hs[d]? with
+      | none => simpa using hl
+      | some x =>
+        cases x with
+        | none => simpa using hl
+        | some p => simp only; rw [List.getElem?_set_ne hdj]; exact hl
+    have := ih (ops ++ [.drop d]) (fun hm => hj (List.mem_cons_of_mem _ hm)) hl'
+    simpa [List.append_assoc] using this
+
 /-- **C05_zero** — no history ever maps or unmaps zero bytes: a zero-length region never reaches `mmap`/`munmap`
 (and by `C05_contents` it reads as the empty slice, through the null-pointer branch of `deref`). -/
 theorem C05_zero (ops : List Op) : ∀ c ∈ (run ops).k.calls, c ≠ Call.mmap 0 ∧ c ≠ Call.munmap 0 :=
@@ -131,5 +153,7 @@ example : (run demo2).flight = [] ∧ (∀ p ∈ [(2, [9, 8]), (1, []), (3, [1, 
   · exact ⟨⟨some 4, 2, 3⟩, by decide⟩
   · exact ⟨⟨none, 0, 2⟩, by decide⟩
   · exact ⟨⟨some 6, 3, 5⟩, by decide⟩
+
+example : (run (demo2 ++ [0, 2, 0, 1].map Op.drop)).hs[3]? = some (some (⟨some 6, 3, 5⟩, [1, 2, 3])) := by decide
 
 end C05
